@@ -35,7 +35,7 @@ def shapes(R, tier):
     for n in ((2, 3) if tier == 'quick' else (2, 3, 4, 5)):
         for seq in itertools.product(alphabet, repeat=n):
             out.append(('enum', [Fraction(x) for x in seq]))
-    for _ in range(40 if tier == 'quick' else 400):
+    for _ in range(150 if tier == 'quick' else 1500):
         n = R.choice([2, 3, 4, 6])
         out.append(('random', [Fraction(R.randrange(0, 200)) for _ in range(n)]))
     return out
